@@ -56,7 +56,7 @@ def cppByte (b : UInt8) : String :=
 def cppBytes (b : Bytes) : String := "'" ++ String.join (b.map cppByte) ++ "'"
 
 def enumName (es : List (String × Nat)) (i : Int) : Option String :=
-  (es.find? fun e => (e.2 : Int) = i).map (·.1)
+  (es.reverse.find? fun e => (e.2 : Int) = i).map (·.1)   -- enumerators sharing a value: the last name (Python: dict of value to name; C++: the case kept by translate_enum)
 
 def bump (ls : List Line) : List Line := ls.map fun (lvl, s) => (lvl + 1, s)
 
